@@ -371,20 +371,20 @@ theorem scan_id_of_no_move (l : Bytes) :
 /-! ### the pure reading of the text pipeline -/
 
 /-- the announcement tag stays: free-for-all switch, privileged author, or no tag at the front. -/
-def tnKeeps (role : Bool) (t : Bytes) : Bool := Gen.Post.ALLOW_FREE_TN_ANNOUNCE || role || !hasPrefix t TN
+def tnKeeps (c : Cfg) (role : Bool) (t : Bytes) : Bool := c.allowFreeTn || role || !hasPrefix t TN
 
 /-- the published title. -/
 def pTitle (q : Req) : Bytes :=
   let f := fullTitle q.cls q.title
-  if tnKeeps q.role f then f else f.drop TN.length
+  if tnKeeps q.cfg q.role f then f else f.drop TN.length
 
 theorem slice_drop (a : Bytes) (n : Nat) (h : n ≤ a.length) : slice a n a.length = .ok (a.drop n) := by
   simp [slice, h]
 
-theorem tnSafeStrip_eq (role : Bool) (t : Bytes) :
-    tnSafeStrip role t = .ok (if tnKeeps role t then t else t.drop TN.length) := by
+theorem tnSafeStrip_eq (c : Cfg) (role : Bool) (t : Bytes) :
+    tnSafeStrip c role t = .ok (if tnKeeps c role t then t else t.drop TN.length) := by
   unfold tnSafeStrip tnSafeStripWith isTnAllowedWith tnKeeps isTnAnnounce
-  cases hA : Gen.Post.ALLOW_FREE_TN_ANNOUNCE
+  cases hA : c.allowFreeTn
   · cases role
     · cases hp : hasPrefix t TN
       · simp [bind, Except.bind, pure, Except.pure]
@@ -393,8 +393,8 @@ theorem tnSafeStrip_eq (role : Bool) (t : Bytes) :
     · simp [bind, Except.bind, pure, Except.pure]
   · simp [bind, Except.bind, pure, Except.pure]
 
-theorem postTitle_eq (q : Req) : postTitle q.role q.cls q.title = .ok (pTitle q) := by
-  unfold postTitle pTitle; exact tnSafeStrip_eq _ _
+theorem postTitle_eq (q : Req) : postTitle q.cfg q.role q.cls q.title = .ok (pTitle q) := by
+  unfold postTitle pTitle; exact tnSafeStrip_eq _ _ _
 
 /-- the lines the loop of WriteFile writes: all of them, except a last line that is empty. -/
 def keptLines : List Bytes → List Bytes
@@ -440,14 +440,14 @@ theorem keptLines_spec (ls : List Bytes) :
 
 /-- the article file. -/
 def pContent (q : Req) (e : Env) : Bytes :=
-  header q.anon q.userID q.nick q.board (pTitle q) e.ctime ++ pBody q.lines ++ signature (useAnony q.anon) q.ip q.frm
-    ++ urlLine q.board e.name
+  header q.cfg q.anon q.userID q.nick q.board (pTitle q) e.ctime ++ pBody q.lines ++ signature (useAnony q.cfg q.anon) q.ip q.frm
+    ++ urlLine q.cfg q.board e.name
 
-def pEntropy (q : Req) : Nat := pEntropyFrom initEntropy q.lines
+def pEntropy (q : Req) : Nat := pEntropyFrom (initEntropy q.cfg) q.lines
 def pMoney (q : Req) : Nat := postMoney q (pEntropy q)
 def pRecord (q : Req) (e : Env) : Bytes := postRecord q e (pTitle q) (pMoney q)
 def pCross (q : Req) (e : Env) : Bytes := crossRecord q e (pMoney q)
-def pLog (q : Req) (e : Env) : Bytes := postLogImage (headerAuthor q.anon q.userID q.nick).1 q.board (pTitle q) e.logDate
+def pLog (q : Req) (e : Env) : Bytes := postLogImage (headerAuthor q.cfg q.anon q.userID q.nick).1 q.board (pTitle q) e.logDate
 
 theorem articleFile_eq (q : Req) (e : Env) : articleFile q e (pTitle q) = .ok (pContent q e, pEntropy q) := by
   unfold articleFile
@@ -511,6 +511,16 @@ theorem recordImage_multi (name : Bytes) (mtime : Nat) (owner date title : Bytes
     ← List.append_assoc _ (le32 multi)]
   exact field_mid _ _ _ _ _ (by simp [le32_length]; decide) (le32_length _)
 
+theorem recordImage_filemode (name : Bytes) (mtime : Nat) (owner date title : Bytes) (multi fm : Nat) :
+    C05.field (recordImage name mtime owner date title multi fm) Gen.RecFile.offFilemode Gen.RecFile.lenFilemode
+      = [fm] := by
+  unfold recordImage
+  simp only [List.append_assoc]
+  rw [← List.append_assoc (copyInto _ name), ← List.append_assoc _ (List.replicate _ 0), ← List.append_assoc _ (copyInto _ owner),
+    ← List.append_assoc _ (copyInto _ date), ← List.append_assoc _ (copyInto _ title), ← List.append_assoc _ (List.replicate _ 0),
+    ← List.append_assoc _ (le32 multi), ← List.append_assoc _ [fm]]
+  exact field_mid _ _ _ _ _ (by simp [le32_length]; decide) rfl
+
 theorem postRecord_length (q : Req) (e : Env) (t : Bytes) (m : Nat) : (postRecord q e t m).length = dirSz := by
   unfold postRecord; split <;> exact recordImage_length ..
 
@@ -562,7 +572,7 @@ def nextSt (s : St) (q : Req) (e : Env) (b : BoardSt) : St :=
   let boards1 := updBoard boards0 q.board BoardSt.setTotal
   let boards2 := if q.isOpen then updBoard boards1 ALLPOST fun x => x.crossPublish e.name (pContent q e) (pCross q e) else boards1
   { boards := boards2,
-    users := if useAnony q.anon then s.users else bumpUser s.users q.userID q.callerNp,
+    users := if useAnony q.cfg q.anon then s.users else bumpUser s.users q.userID q.callerNp,
     postLog := (C05.appendRecord s.postLog logSz (pLog q e)).1 }
 
 def nextPosted (q : Req) (e : Env) (b : BoardSt) : Posted :=
